@@ -166,7 +166,7 @@ pub fn g_f32_any() -> BS<f32> {
     .boxed()
 }
 
-fn g_str() -> BS<String> {
+pub fn g_str() -> BS<String> {
     g_string(12)
 }
 
